@@ -132,6 +132,20 @@ std::string make_record(int id, int n, int cls)
         s.append(n - s.size(), char('A' + id % 26));
         return s;
     }
+    if (cls == 4) {
+        // binary-looking text: carriage returns, CR LF pairs, tabs, other control characters, DEL
+        static const char *const bits[] = { "\r", "\r\n", "\t", "\x01", "\x1b[0m", "\x7f", "\x1f", "\n", "\r\r", "\x0c" };
+        uint64_t x = 0xA0761D6478BD642Full * (uint64_t)(id + 3);
+        while ((int)s.size() < n) {
+            x = x * 6364136223846793005ull + 1442695040888963407ull;
+            unsigned k = (unsigned)(x >> 35);
+            std::string piece = (k % 3 == 0) ? std::string(bits[(k / 3) % 10]) : std::string(1, char(33 + (k / 3) % 94));
+            if ((int)(s.size() + piece.size()) > n)
+                piece = std::string(1, char('a' + k % 26));
+            s += piece;
+        }
+        return s;
+    }
     if (cls == 3) {
         uint64_t x = 0xD1B54A32D192ED03ull * (uint64_t)(id + 7);
         while ((int)s.size() < n) {
@@ -1201,6 +1215,15 @@ uint64_t dir_hash(const std::string &dir, uint64_t h)
     for (auto &n : logdir::list_files(dir)) {
         std::string raw;
         logdir::read_file(dir + "/" + n, raw);
+        // temporary files carry six random letters (QTemporaryFile): not part of the fingerprint
+        if (n.size() > 7 && n[n.size() - 7] == '.') {
+            bool letters = true;
+            for (size_t i = n.size() - 6; i < n.size(); i++)
+                if (!isalpha((unsigned char)n[i]))
+                    letters = false;
+            if (letters)
+                continue;
+        }
         h = sim::fnv1a(n.data(), n.size(), h);
         h = sim::fnv1a(raw.data(), raw.size(), h);
         int64_t mt = logdir::mtime_ns(dir + "/" + n);
@@ -1226,6 +1249,14 @@ Result run_single(const FPlan &P, bool crash_mode, bool fault_mode, bool collect
     e.after_op("open", true);
     e.run_ops(collect_sites);
     e.finish_probes();
+    if (getenv("FSIM_DUMP_EVENTS")) {
+        const sim::Shm *sh = sim::shm();
+        for (uint32_t i = 0; i < sh->nevents && i < sim::MAX_EVENTS; i++) {
+            const sim::Event &ev = sh->events[i];
+            fprintf(stdout, "# ev %u kind=%u a=%lld b=%lld c=%lld s=%s\n", i, ev.kind, (long long)ev.a, (long long)ev.b,
+                    (long long)ev.c, sim::ev_str(sh, ev).c_str());
+        }
+    }
     e.res.hash = dir_hash(e.logdir_path, sim::trace_hash_now());
     e.res.crash_points = e.crash_points;
     sim::fs_disarm();
@@ -1251,8 +1282,22 @@ Result run_history(const FPlan &plan)
             has_fault = true;
     }
     if (!plan.enumerate) {
-        if (has_fault)
-            return run_single(plan, false, true, false, nullptr);
+        if (has_fault) {
+            Result fr = run_single(plan, false, true, false, nullptr);
+            if (!fr.ok && !fr.machinery) {
+                for (size_t i = 0; i < plan.ops.size(); i++)
+                    if (plan.ops[i].fault_call >= 0) {
+                        const FOp &o = plan.ops[i];
+                        fr.msg = std::string("with ") + sim::fs_call_name(o.fault_call) + " #" + std::to_string(o.fault_nth)
+                                + " of operation " + std::to_string(i) + " failing with errno " + std::to_string(o.fault_errno)
+                                + " (" + strerror(o.fault_errno) + "): " + fr.msg;
+                        break;
+                    }
+                fr.cls = "io-failure-loses-records";
+                fr.signature = "io-failure-loses-records";
+            }
+            return fr;
+        }
         return run_single(plan, has_crash, false, false, nullptr);
     }
     // enumeration: all crash points of the fault-free execution ...
